@@ -126,6 +126,14 @@ Fixpoint skip_value (depth : nat) (ts : list token) : res (list token) :=
       else match depth with O => Ok rest | _ => skip_value depth rest end
   end.
 
+(* the type reached through every level of pointer (and type definition) *)
+Fixpoint ptr_base (t : ty) : ty :=
+  match t with
+  | TPtr e => ptr_base e
+  | TNamed _ _ _ u => ptr_base u
+  | _ => t
+  end.
+
 Section WithParseFloat.
 (* strconv.ParseFloat(text, bits): bit pattern at that width, or failure *)
 Variable pf : bytes -> N -> option N.
@@ -329,6 +337,10 @@ Fixpoint unm (fuel : nat) (o : copts) (R : registry) (t : ty) (cur : gval) (ts :
                   else Ok tk0 in
       bind conv (fun tk =>
       let k := kind tk in
+      (* a concrete target needs no type name: skipped before the marshaler bridge and before
+         any pointer is allocated *)
+      if (k =? KTypeName) && negb (match ptr_base t with TAny => true | _ => false end) then unm f o R t cur rest
+      else
       match underlying t with
       | TTime =>
           (* encoding.BinaryUnmarshaler bridged through a string token; checked before Nil *)
